@@ -21,7 +21,7 @@ func weighted(w map[string]int, order []string) []string {
 	return out
 }
 
-var opOrder = []string{"begin", "set", "del", "get", "getr", "keys", "commit", "rollback", "gc", "reopen"}
+var opOrder = []string{"begin", "set", "del", "get", "getr", "keys", "commit", "rollback", "gc", "reopen", "otherdb"}
 
 // GenTxOps draws a transactional history.
 func GenTxOps(t *rapid.T, o TxGenOpts) []Op {
@@ -36,7 +36,7 @@ func GenTxOps(t *rapid.T, o TxGenOpts) []Op {
 		switch k {
 		case "begin":
 			op.Lvl = rapid.IntRange(0, 4).Draw(t, "lvl")
-		case "gc", "reopen":
+		case "gc", "reopen", "otherdb":
 		default:
 			// a third of the operations are autocommit, the rest go to one of the open transactions
 			if rapid.IntRange(0, 2).Draw(t, "auto") > 0 {
@@ -66,7 +66,7 @@ func GenTxOps(t *rapid.T, o TxGenOpts) []Op {
 		}
 		// now and then the caller's context is already cancelled (a request that timed out and runs its
 		// deferred Rollback, say): the inline binding ignores the context, so nothing may change
-		if k != "gc" && k != "reopen" && rapid.IntRange(0, 11).Draw(t, "cctx") == 0 {
+		if k != "gc" && k != "reopen" && k != "otherdb" && rapid.IntRange(0, 11).Draw(t, "cctx") == 0 {
 			op.Cctx = true
 		}
 		ops = append(ops, op)
